@@ -6,13 +6,13 @@
    and maxima, offset-sorted box map, level-header and global-header writers.
    The recipe is a parameter of the model and of the theorems (any function
    of a box's level, index range and data).  Compared byte for byte with
-   Chef.cook on every run; the mapping of per-file results back to box order
-   and the header text are tied to the code by that correspondence (partial
-   proof).  Cantera-backed recipes share the skeleton; their values are
+   Chef.cook on every run.  PROVED for every layout: the per-file scan, and the
+   mapping of the per-file results back to box order (C11_level_any_layout);
+   the header text is tied to the code by the correspondence (partial proof).  Cantera-backed recipes share the skeleton; their values are
    Cantera's (oracle). *)
 From AK Require Import Base.Prelude Bytes.Text Bytes.FabHeader Bytes.BinFile
   Reader.Select Reader.BoxRead Reader.Level Reader.ReadSpec
-  Plotfile.TextHeader Taste.Taste Writers.Colander Writers.Chef Writers.ChefProofs.
+  Plotfile.TextHeader Taste.Taste Plotfile.Abstract Writers.Colander Writers.Chef Writers.ChefProofs Writers.ChefLevelProofs.
 
 (* The scan of a binary file holding ANY list of well-formed 3D boxes cooks
    every box, in file order, and stops at end of file: the output file is the
@@ -32,6 +32,36 @@ Theorem C11_scan : forall recipe lv (fs : list fab) (news : list (list bytes)) k
               (combine (seq 0 (length fs)) (combine fs news))).
 Proof. exact knife_scan_spec. Qed.
 Print Assumptions C11_scan.
+
+(* One level, ANY layout (any box -> file distribution, any on-disk order):
+   Chef.cook's per-file tasks and the mapping of their results back to box
+   order give, for every box i, in box order: the byte offset of the cooked box
+   i in the new files, and the minima / maxima of exactly the components of
+   box i (kept fields, then the recipe's) - never another box's; the new files
+   hold the cooked boxes in the input's layout, which is well-formed. *)
+Theorem C11_level_any_layout : forall recipe k lv keep nout new_of c,
+  wf_level lv = true ->
+  let n := length (lv_fabs lv) in
+  let fabi := fun i => nth i (lv_fabs lv) dummy_fab in
+  (forall i, (i < n)%nat -> length (fab_lo (fabi i)) = 3%nat) ->
+  (forall i, (i < n)%nat -> Forall (fun j => 0 <= j < fab_nc (fabi i)) keep) ->
+  (forall i, (i < n)%nat -> recipe_ok recipe k (fabi i) (new_of i)) ->
+  (forall i, (i < n)%nat -> new_of i <> [] \/ keep <> []) ->
+  (forall i, (i < n)%nat -> blen (new_of i) + blen keep = nout) ->
+  c_indexes c = map (fun fb => (fab_lo fb, fab_hi fb)) (lv_fabs lv) ->
+  c_files c = map fst (cells_or_nil lv) -> c_offsets c = map snd (cells_or_nil lv) ->
+  cook_level recipe k (lv_disk lv) c keep nout
+  = Some (map (fun name => (name, encode_file (file_fabs (cooked_lv lv keep new_of) (ids_of lv name))))
+              (np_unique (map fst (cells_or_nil lv))),
+          map snd (cells_or_nil (cooked_lv lv keep new_of)),
+          map (fun i => map comp_min (comps_of lv keep new_of i)) (seq 0 n),
+          map (fun i => map comp_max (comps_of lv keep new_of i)) (seq 0 n))
+  /\ wf_level (cooked_lv lv keep new_of) = true.
+Proof.
+  intros recipe k lv keep nout new_of c Hwf n fabi H3 Hk Hr Hne Hno Hi Hf Ho. split.
+  - exact (cook_level_spec recipe k lv Hwf keep nout new_of H3 Hk Hr Hne Hno c Hi Hf Ho).
+  - exact (wf_cooked recipe k lv Hwf keep nout new_of H3 Hk Hr Hne Hno).
+Qed.
 
 (* A cooked box: kept fields bit-identical to the input, then the recipe's
    components, each stored as its own component (the names of the header are
@@ -69,3 +99,4 @@ Example C11_order_examples :
    comp_min (one ++ mtwo ++ two), comp_max (one ++ mtwo ++ two))
   = (true, true, true, true, true, false, mtwo, two).
 Proof. vm_compute. reflexivity. Qed.
+Print Assumptions C11_level_any_layout.
